@@ -443,9 +443,10 @@ class VQA:
         ----------
         angles: list of float
             Circuit free parameters
-        indicies_to_compute: list of int, optional
-            Block indices for which to use in computing the jacobian.
-            By default, this is every index (every block).
+        indices_to_compute: list of int, optional
+            Indices of the free parameters with respect to which the
+            derivative is computed. By default, this is every index
+            (every free parameter).
 
         Returns
         -------
@@ -469,12 +470,14 @@ class VQA:
         for k, block in enumerate(self.get_block_series()):
             n_params = block.get_free_parameters_num()
             if n_params > 0:
-                if i in indices_to_compute:
-                    dBlock = block.get_unitary_derivative(
-                        angles[i : i + n_params]
-                    )
-                    dU = modify_unitary(k, dBlock)
-                    jacobian.append(self.cost_derivative(U, dU))
+                # one entry per free parameter of the block
+                for term_index in range(n_params):
+                    if i + term_index in indices_to_compute:
+                        dBlock = block.get_unitary_derivative(
+                            angles[i : i + n_params], term_index
+                        )
+                        dU = modify_unitary(k, dBlock)
+                        jacobian.append(self.cost_derivative(U, dU))
                 i += n_params
         return np.array(jacobian)
 
